@@ -111,8 +111,13 @@ def get_matching_impls(fcp: FcpV2, protocol: str) -> List[Impl]:
 
 
 def get_struct_from_type(fcp: FcpV2, type: str) -> Struct:
-    """Get struct from type name."""
-    return fcp.get_type(StructType(type)).unwrap()
+    """Get struct from type name, with its fields in serialization (field id) order."""
+    struct = fcp.get_type(StructType(type)).unwrap()
+    return Struct(
+        name=struct.name,
+        fields=sorted(struct.fields, key=lambda field: field.field_id),
+        meta=struct.meta,
+    )
 
 
 def create_template_environment(
